@@ -17,6 +17,8 @@ type GenCfg struct {
 	Cancel         bool
 	Cast           bool
 	BadCast        bool // exchange whose inputs cannot be cast to the declared schema
+	AfterCancel    bool // the client keeps writing inputs (and a second cancel) after its cancel batch
+	ZeroRows       bool // one exchange input has zero rows
 	WriteAhead     bool
 	Levels         bool
 	InputMeta      bool
@@ -127,6 +129,13 @@ func GenOps(tp *simkern.Tape, c GenCfg) []*Op {
 			op.Inputs = 1 + tp.Draw(len(op.Script.Turns)+2)
 			if c.Cancel && tp.Bool(1, 5) {
 				op.CancelAt = tp.Draw(op.Inputs)
+				if c.AfterCancel && tp.Bool(1, 2) {
+					op.AfterCancel = 1 + tp.Draw(3)
+					op.SecondCancel = tp.Bool(1, 2)
+				}
+			}
+			if c.ZeroRows && op.StreamKind == "exchange" && tp.Bool(1, 4) {
+				op.ZeroRowAt = 1 + tp.Draw(op.Inputs)
 			}
 			if c.Cast && op.StreamKind == "exchange" && tp.Bool(1, 3) {
 				op.Cast = true
